@@ -960,7 +960,14 @@ def e_sample(c):
     kw = {'seed': c.seed()}
     if c.rng.random() < 0.4:
         kw['unsert'] = 1e-8
-    return Call('sample', teneva.sample, [_pos_tt(c), int(c.rng.integers(1, 6))], kw, seed_kw='seed')
+    Y = [np.abs(G) + 0.1 for G in c.tt_shape(c.n, int(c.rng.integers(1, 4)))]
+    if c.rng.random() < 0.15 and Y[0].shape[1] > 1:
+        # a first-mode slice that vanishes exactly, with a noise floor large enough for a draw to land in it (no conditional
+        # distribution exists then: the call is rejected on the pinned tree, always for the same seeds)
+        Y[0][:, int(c.rng.integers(0, Y[0].shape[1])), :] = 0.0
+        kw['unsert'] = float(_pick(c, [0.05, 0.5]))
+        return Call('sample', teneva.sample, [c.own(Y), int(c.rng.integers(3, 9))], kw, seed_kw='seed', may_fail=True)
+    return Call('sample', teneva.sample, [c.own(Y), int(c.rng.integers(1, 6))], kw, seed_kw='seed')
 
 
 @entry(weight=2)
@@ -1123,6 +1130,38 @@ def e_ANOVA(c):
             return 'ANOVA.cores(noise=0) after two sample() calls differs from the cores of a freshly built object'
         return None
     return Call('ANOVA', teneva.ANOVA, [I, y], {'order': order, 'seed': c.seed()}, seed_kw='seed', post=post, check=check)
+
+
+@entry(name='ANOVA_call')
+def e_ANOVA_call(c):
+    # the evaluation methods of a built ANOVA object are public as well: obj(I) / obj[i] must leave the query alone,
+    # also when the query holds an index value that never occurred in the train data (rejected on the pinned tree)
+    m = int(c.rng.integers(6, 25))
+    I = np.stack([c.rng.integers(0, k, m) for k in c.n], axis=1)
+    cover = np.array([[min(j, k - 1) for k in c.n] for j in range(max(c.n))])
+    I = np.vstack([I, cover])
+    k = int(c.rng.integers(0, len(c.n)))
+    gap = None
+    if c.n[k] > 1 and c.rng.random() < 0.6:
+        gap = int(c.rng.integers(0, c.n[k]))
+        I = I[I[:, k] != gap]
+    y = c.rng.standard_normal(len(I))
+    order = int(c.rng.integers(1, 3))
+    Q = np.stack([c.rng.integers(0, kk, 4) for kk in c.n], axis=1)
+    if gap is not None and c.rng.random() < 0.7:
+        Q[int(c.rng.integers(0, 4)), k] = gap
+    else:
+        # only values that occur in the train data
+        for j in range(len(c.n)):
+            seen = np.unique(I[:, j])
+            Q[:, j] = seen[Q[:, j] % len(seen)]
+    u = c.rng.random()
+    Qa = c.own(Q) if u < 0.5 else (c.own(Q.tolist()) if u < 0.75 else c.own(Q[0].copy()))
+
+    def fn(I_, y_, Q_):
+        obj = teneva.ANOVA(I_, y_, order, seed=3)
+        return np.asarray(obj(Q_))
+    return Call('ANOVA_call', fn, [c.own(I), c.own(y), Qa], {}, may_fail=True)
 
 
 def _trn_func(c, d):
@@ -1379,6 +1418,8 @@ def e_als_func(c):
         kw['y_vld'] = c.own(c.rng.standard_normal(5) + 1)
         if c.rng.random() < 0.5:
             kw['e_vld'] = 10.0
+    elif c.rng.random() < 0.25:
+        kw['e_vld'] = 10.0              # a validation threshold without validation data is ignored
     if c.rng.random() < 0.3:
         nn = n[0]
 
@@ -1388,7 +1429,7 @@ def e_als_func(c):
         u = c.rng.random()
         kw['fh'] = fh if u < 0.45 else ([fh] * d if u < 0.85 else c.own([fh]))     # a one-element list is rejected on the pinned tree
     elif c.rng.random() < 0.2:
-        kw['n_max'] = n[0] + 1
+        kw['n_max'] = n[0] + int(c.rng.integers(0, 2))
     if c.rng.random() < 0.1:
         kw['log'] = True
     return Call('als_func', teneva.als_func, [X, y, A0], kw, mutable=mutable, defaults_dict=dd)
@@ -1438,6 +1479,8 @@ def jitter_types(call, c, prob=0.3):
         types = doc.get(pname)
         if not types or c.rng.random() >= prob:
             return v
+        if isinstance(v, bool) and 'bool' in types:
+            return np.bool_(v)          # the result of a numpy comparison used as a flag
         if isinstance(v, bool) or v is None or callable(v):
             return v
         if isinstance(v, (int, np.integer)) and 'float' in types:
@@ -1489,4 +1532,4 @@ def uncatalogued():
 
 
 # composite entries that are not names of exported callables
-COMPOSITE = ['anova_from_file', 'als_swap_default_info', 'als_vld_default_info']
+COMPOSITE = ['anova_from_file', 'als_swap_default_info', 'als_vld_default_info', 'ANOVA_call']
